@@ -57,6 +57,10 @@ Inductive ssmcase :=
 | CHmm (K : nat) (pi0 : list Q) (A : list (list Q)) (E : list (list Q)) (ys : list nat)
        (filt : list (list Q)) (marg : Q) (path : list nat) (seqp : Q) (ffbsp : Q)
 | CKal (s : lgssm) (ys : list vec) (fm : list vec) (fc : list mat) (sm : list vec) (sc : list mat) (lml : Q)
+(* the step models iterated over time through assess: discrete_hmm on a state path / observations (exp of the
+   summed log densities), linear_gaussian on a state sequence / observations (summed log density) *)
+| CHmmStep (K : nat) (pi0 : list Q) (A : list (list Q)) (E : list (list Q)) (ys path : list nat) (stepp : Q)
+| CLgStep (s : lgssm) (xs ys : list vec) (lp : Q)
 | CFlagS (ok : bool).
 
 Definition tab1 (l : list Q) (i : nat) : Qc := Q2Qc (nth i l 0).
@@ -111,6 +115,30 @@ Definition check_ssm (c : ssmcase) : bool * bool * bool :=
         && forallb (fun t => let '(m, c) := condition s ys T t in vclose TOL (nth t sm []) m && mclose TOL (nth t sc []) c) (seq 0 T)
         && (let '(qd, dt) := evidence_parts s ys in lml_ok (1 # 2000) lml qd dt (T * d_obs)) in
       (model_ok, spec_ok, spec_ok)
+  | CHmmStep K pi0 A E ys path stepp =>
+      let p := tab1 pi0 in let a := tab2 A in let e := tab2 E in
+      let want := this (joint p a e (rev path) (rev ys)) in
+      let rel := Qle_bool (Qabs (stepp - want)) ((1 # 2000) * Qabs want) in
+      (rel && qclose TOL stepp (this (seq_prob p a e path ys)), rel, rel)
+  | CLgStep s xs ys lp =>
+      let quadf := fun (sigma : mat) (d : vec) => dot d (mvec (minv sigma) d) in
+      let T := length xs in
+      let trans :=
+        (fix go (prev : vec) (l : list vec) : Q :=
+           match l with
+           | [] => 0
+           | x :: l' => quadf (Q_ s) (vsub x (mvec (A_ s) prev)) + go x l'
+           end) in
+      let q_state := match xs with
+                     | [] => 0
+                     | x0 :: rest => quadf (P0 s) (vsub x0 (m0 s)) + trans x0 rest
+                     end in
+      let q_obs := fold_right (fun (xy : vec * vec) acc => quadf (R_ s) (vsub (snd xy) (mvec (C_ s) (fst xy))) + acc) 0 (combine xs ys) in
+      let detpow := fix go (d : Q) (n : nat) : Q := match n with O => 1 | S n' => d * go d n' end in
+      let dt := mdet (P0 s) * detpow (mdet (Q_ s)) (T - 1)%nat * detpow (mdet (R_ s)) T in
+      let nn := (T * length (m0 s) + T * length (hd [] ys))%nat in
+      let ok := Nat.eqb (length ys) T && negb (Nat.eqb T 0) && lml_ok (1 # 1000) lp (q_state + q_obs) dt nn in
+      (ok, ok, ok)
   | CFlagS ok => (ok, ok, ok)
   end.
 
